@@ -45,6 +45,8 @@ class C01(Check):
                 shaped.append((d, sh))
         for sh in G.ring0_shapes():
             descs.append(("tx", G.tx_desc(rng, **sh)))
+        for sh in [x for x in G.big_count_shapes() if x["ring"] < 1000 and x.get("lr", (0, 0))[0] < 1000][::3]:
+            descs.append(("tx", G.tx_desc(rng, **sh)))
         for _ in range(250 if not thorough else 900):
             descs.append(("tx", G.tx_desc(rng, **G.random_shape(rng, small=True))))
         for _ in range(20 if not thorough else 60):
@@ -126,6 +128,7 @@ class C01(Check):
                 budget = 150
             if thorough:
                 budget *= 3
+            budget = min(budget, max(12, 300000 // max(1, len(b))))      # big objects: a few mutations only
             muts = G.mutations_at_every_offset(b, rng)
             if len(muts) > budget:
                 muts = rng.sample(muts, budget)
